@@ -434,13 +434,9 @@ def case_term(spec, run):
             samples.append('(mkS %s %s None)' % (listlit([value_term(p) for p in params]), value_term(student)))
         lst = list(run.lstsq)
     else:
-        li = 0
         lst = []
         for call in run.calls:
             params = call['params'] if isinstance(call['params'], list) else [call['params']]
-            ols = None
-            if name in ('span', 'phase') and li < len(run.lstsq) and call.get('lstsq_index') is not None:
-                pass
             samples.append((params, call['student']))
         # lstsq calls happen at most once per simple comparer call, in order; pair them up by matching b
         pending = list(run.lstsq)
@@ -494,3 +490,879 @@ def eval_cases(tag, terms, shard):
         failing += [k + int(x) for x in re.findall(r'\d+', m.group(1).replace('%nat', ''))]
         boundary += [k + int(x) for x in re.findall(r'\d+', m.group(2).replace('%nat', ''))]
     return len(terms), failing, boundary, errors
+
+
+# ------------------------------------------------------------------------------------------------
+# generators: spec dicts with an `expect` entry for the property oracle
+# ------------------------------------------------------------------------------------------------
+FINDINGS = ('between_comparer-complex-typed-real', 'congruence_comparer-wraparound',
+            'vector_span_comparer-dependent-vectors', 'LinearComparer-empty-valid-modes',
+            'LinearComparer-complex-squares')
+ABS_TOLS = [1e-6, 1e-3, 0.01]
+PCT_TOLS = ['0.01%', '1%', '5%']
+POLICIES = [{'suppress': False, 'is_raised': True, 'msg_detail': 'type'},
+            {'suppress': False, 'is_raised': True, 'msg_detail': 'shape'},
+            {'suppress': False, 'is_raised': True, 'msg_detail': None},
+            {'suppress': False, 'is_raised': False, 'msg_detail': 'type'},
+            {'suppress': False, 'is_raised': False, 'msg_detail': 'shape'},
+            {'suppress': False, 'is_raised': False, 'msg_detail': None},
+            {'suppress': True, 'is_raised': True, 'msg_detail': 'type'},
+            {'suppress': True, 'is_raised': False, 'msg_detail': 'shape'}]
+
+
+def rtol(rng):
+    return rng.choice(ABS_TOLS + PCT_TOLS)
+
+
+def rc(rng, cplx=True, lo=-4, hi=4, ints=False):
+    if ints:
+        z = complex(rng.randint(lo, hi), rng.randint(lo, hi) if cplx else 0)
+    else:
+        z = complex(round(rng.uniform(lo, hi), 3), round(rng.uniform(lo, hi), 3) if cplx else 0)
+    return z
+
+
+def rvec(rng, n, cplx, ints=False):
+    while True:
+        v = [rc(rng, cplx, ints=ints) for _ in range(n)]
+        if sum(abs(z) ** 2 for z in v) >= 1:
+            return v
+
+
+def wrong_shapes(rng, n, matrix_shape=None):
+    """student strings whose shape differs from a vector of length n (or from matrix_shape)"""
+    out = ['%s' % fnum(rng.randint(1, 5))]
+    if matrix_shape is None:
+        out.append(vec_str([rng.randint(1, 5) for _ in range(n + rng.choice([-1, 1]) if n > 1 else n + 1)]))
+        out.append(mat_str([[rng.randint(1, 5) for _ in range(n)] for _ in range(n)]))
+        out.append(mat_str([[rng.randint(1, 5) for _ in range(n)]]))
+    else:
+        r, c = matrix_shape
+        out.append(vec_str([rng.randint(1, 5) for _ in range(c)]))
+        out.append(mat_str([[rng.randint(1, 5) for _ in range(c + 1)] for _ in range(r)]))
+        out.append(mat_str([[rng.randint(1, 5) for _ in range(c)] for _ in range(r + 1)]))
+    return out
+
+
+def gen_between(rng, n):
+    out = []
+    kinds = ['in', 'lo', 'hi', 'below', 'above', 'cplx', 'cplx0', 'vec', 'in', 'below', 'above']
+    for i in range(n):
+        exact = rng.random() < 0.5
+        if exact:
+            a = rng.randint(-6, 6) + rng.choice([0, 0.5, 0.25])
+            b = a + rng.choice([0, 1, 2, 3.5, 6])
+        else:
+            a = round(rng.uniform(-10, 10), 3)
+            b = a + round(rng.uniform(0.001, 20), 3)
+        kind = kinds[i % len(kinds)]
+        x = a + (b - a) * rng.choice([0.5, 0.25, 0.75, rng.random()]) if not exact else a + (b - a) * rng.choice([0, 0.5, 1, 0.25])
+        d = rng.choice([1e-9, 1e-6, 0.001, 0.5, 3]) * max(1.0, abs(a), abs(b)) if not exact else rng.choice([0.5, 0.125, 2])
+        expect = {'kind': 'member'}
+        if kind == 'in':
+            st = fnum(x)
+        elif kind == 'lo':
+            st = fnum(a)
+        elif kind == 'hi':
+            st = fnum(b)
+        elif kind == 'below':
+            st, expect = fnum(a - d), {'kind': 'nonmember'}
+        elif kind == 'above':
+            st, expect = fnum(b + d), {'kind': 'nonmember'}
+        elif kind == 'cplx':
+            st, expect = cnum(complex(x, rng.choice([1e-9, -0.5, 2]))), {'kind': 'nonmember'}
+        elif kind == 'cplx0':
+            st = cnum(complex(x, 0.0), force_complex=True)
+        else:
+            st, expect = vec_str([x, x]), {'kind': 'ungraded'}
+        out.append({'grader': rng.choice(['Numerical', 'Formula']), 'cmp': {'name': 'between'}, 'params': [fnum(a), fnum(b)],
+                    'tolerance': rtol(rng), 'student': st, 'expect': expect, 'exact': exact, 'samples': 1})
+    return out
+
+
+def gen_congruence(rng, n):
+    out = []
+    kinds = ['shift', 'near', 'far', 'near', 'far', 'at', 'cplx', 'shift', 'near', 'far']
+    for i in range(n):
+        exact = rng.random() < 0.4
+        kind = kinds[i % len(kinds)]
+        if exact:
+            m = rng.choice([2, 3, 4, 5, 7, -3, -4, 0.5])
+            t = rng.randint(-9, 9) + rng.choice([0, 0, 0.5, 0.25])
+            tolerance = rng.choice([0.5, 0.25, 0.125, 0])
+        else:
+            m = rng.choice([2 * math.pi, 360.0, 1.0, 0.7, -3.3, 24.0])
+            t = rng.choice([0.0, round(rng.uniform(-3, 3) * abs(m), 4), round(rng.uniform(0, 1) * 1e-7 * abs(m), 12)])
+            tolerance = rtol(rng)
+        k = rng.randint(-4, 4)
+        er = float(Fraction(t) - Fraction(m) * math.floor(Fraction(t) / Fraction(m)))
+        tol = tol_value(tolerance, abs(er)) if isinstance(tolerance, str) else tolerance
+        sign = rng.choice([-1, 1])
+        base = Fraction(t) + k * Fraction(m)
+        if kind == 'shift':
+            s = base
+        elif kind == 'near':
+            s = base + Fraction(sign * rng.choice([0.25, 0.5, 0.75]) * (tol if tol > 0 else 0))
+        elif kind == 'at':
+            s = base + Fraction(sign * tol)
+        elif kind == 'far':
+            far = max(1000 * tol * rng.choice([1, 3]), 1e-3 * abs(m) if not exact else abs(m) * 0.25)
+            s = base + Fraction(sign * min(far, abs(m) * 0.45))
+        else:
+            s = None
+        st = cnum(complex(float(base), rng.choice([0.0, 0.5])), force_complex=True) if s is None else fnum(float(s))
+        out.append({'grader': rng.choice(['Numerical', 'Formula']), 'cmp': {'name': 'congruence'}, 'params': [fnum(t), fnum(m)],
+                    'tolerance': tolerance, 'student': st, 'expect': {'kind': 'congruence'} if s is not None else {'kind': None},
+                    'exact': exact, 'samples': 1})
+    return out
+
+
+EIGEN_CATALOGUE = [
+    ([[2, 1], [1, 2]], [(3, [1, 1]), (1, [1, -1])]),
+    ([[1, 2], [2, 4]], [(0, [2, -1]), (5, [1, 2])]),
+    ([[0, -1], [1, 0]], [(1j, [1, -1j]), (-1j, [1, 1j])]),
+    ([[2, 0, 0], [0, 3, 4], [0, 4, 9]], [(2, [1, 0, 0]), (11, [0, 1, 2]), (1, [0, 2, -1])]),
+    ([[1, 1, 1], [1, 1, 1], [1, 1, 1]], [(3, [1, 1, 1]), (0, [1, 3, -4]), (0, [1, -1, 0])]),
+    ([[4, 1j], [-1j, 4]], [(5, [1j, 1]), (3, [1, 1j])]),
+]
+
+
+def gen_eigen(rng, n):
+    import numpy as np
+    out = []
+    kinds = ['scaled', 'scaled', 'perturbed', 'other', 'zero', 'scaled', 'perturbed', 'shape']
+    for i in range(n):
+        exact = rng.random() < 0.4
+        kind = kinds[i % len(kinds)]
+        pol = rng.choice(POLICIES)
+        if exact:
+            M, pairs = rng.choice(EIGEN_CATALOGUE)
+            lam, v0 = rng.choice(pairs)
+            others = [p for p in pairs if p[0] != lam]
+            c = complex(rng.choice([1, 2, -1, 0.5, 4]), rng.choice([0, 0, 1, -2]))
+            tolerance = rng.choice([0.5, 0.125, '1%', '0.01%', 0])
+        else:
+            dim = rng.choice([2, 3])
+            cplx = rng.random() < 0.5
+            v0 = rvec(rng, dim, cplx)
+            lam = rc(rng, cplx)
+            if abs(lam) < 0.3:
+                lam += 1
+            B = np.array([[rc(rng, cplx) for _ in range(dim)] for _ in range(dim)])
+            v = np.array(v0)
+            M = (B + np.outer(lam * v - B.dot(v), v.conj()) / np.vdot(v, v)).tolist()
+            others = []
+            c = cmath.rect(rng.uniform(0.2, 5), rng.uniform(0, 2 * math.pi)) if cplx else rng.choice([-1, 1]) * rng.uniform(0.2, 5)
+            tolerance = rtol(rng)
+        dim = len(M)
+        expect = {'kind': 'eigen'}
+        if kind == 'scaled':
+            st, expect = vec_str([c * z for z in v0]), {'kind': 'member'}
+        elif kind == 'perturbed':
+            u = rvec(rng, dim, True, ints=exact)
+            d = rng.choice([1e-3, 0.05, 0.5, 2]) if not exact else rng.choice([1, 0.5])
+            st = vec_str([c * z + d * w for z, w in zip(v0, u)])
+        elif kind == 'other' and others:
+            st = vec_str([c * z for z in rng.choice(others)[1]])
+        elif kind == 'zero':
+            st, expect = vec_str([0] * dim), {'kind': 'nonmember'}
+        elif kind == 'shape':
+            st = rng.choice(wrong_shapes(rng, dim))
+            expect = {'kind': 'wrongshape'}
+        else:
+            st, expect = vec_str([c * z for z in v0]), {'kind': 'member'}
+        out.append({'grader': 'Matrix', 'cmp': {'name': 'eigen'}, 'params': [mat_str(M), cnum(lam)], 'tolerance': tolerance,
+                    'student': st, 'expect': expect, 'exact': exact and kind != 'perturbed', 'policy': pol,
+                    'samples': rng.choice([1, 2])})
+    return out
+
+
+def independent(rng, k, n, cplx, ints):
+    import numpy as np
+    while True:
+        ws = [rvec(rng, n, cplx, ints=ints) for _ in range(k)]
+        sv = np.linalg.svd(np.array(ws), compute_uv=False)
+        if len(sv) >= min(k, n) and sv[min(k, n) - 1] / sv[0] > 0.15:
+            return ws
+
+
+def orth_unit(ws, rng):
+    """a unit vector orthogonal (hermitian) to all ws; None if they span everything"""
+    import numpy as np
+    A = np.array(ws, dtype=complex)
+    _, s, vh = np.linalg.svd(A)
+    rank = int(np.sum(s > 1e-9 * s[0]))
+    if rank >= A.shape[1]:
+        return None
+    null = vh[rank:].conj()
+    coef = np.array([complex(rng.uniform(-1, 1), rng.uniform(-1, 1)) for _ in range(null.shape[0])])
+    u = coef.dot(null)
+    return (u / np.linalg.norm(u)).tolist()
+
+
+def gen_span(rng, n):
+    import numpy as np
+    out = []
+    kinds = ['member', 'nonmember', 'member', 'nonmember', 'zero', 'shape', 'dependent', 'nonmember', 'square']
+    for i in range(n):
+        kind = kinds[i % len(kinds)]
+        dim = rng.choice([2, 3, 3, 4])
+        cplx = rng.random() < 0.6
+        ints = rng.random() < 0.4
+        pol = rng.choice(POLICIES)
+        tolerance = rtol(rng)
+        if kind == 'dependent':
+            k = rng.choice([2, 3]) if dim > 2 else 2
+            base = independent(rng, k - 1, dim, cplx, True)
+            coefs = [complex(rng.choice([1, 2, -1, 3]), rng.choice([0, 1]) if cplx else 0) for _ in base]
+            last = [sum(c * b[j] for c, b in zip(coefs, base)) for j in range(dim)]
+            ws = base + [last]
+            rng.shuffle(ws)
+            true_span = base
+        elif kind == 'square':
+            k = dim
+            ws = independent(rng, k, dim, cplx, ints)
+            true_span = ws
+        else:
+            k = rng.randint(1, dim - 1)
+            ws = independent(rng, k, dim, cplx, ints)
+            true_span = ws
+        cs = [rc(rng, cplx or rng.random() < 0.5) for _ in ws]
+        if sum(abs(c) for c in cs) < 0.5:
+            cs[0] += 2
+        member = [sum(c * w[j] for c, w in zip(cs, ws)) for j in range(dim)]
+        if sum(abs(z) ** 2 for z in member) < 0.25:
+            member = [z + w for z, w in zip(member, ws[0])]
+        mnorm = math.sqrt(sum(abs(z) ** 2 for z in member))
+        expect = {'kind': 'member'}
+        st = vec_str(member)
+        if kind in ('nonmember', 'dependent', 'square') and not (kind == 'square'):
+            u = orth_unit(true_span, rng)
+            if u is not None:
+                f = rng.choice([0.01, 0.3, 2.0])
+                d = f * mnorm
+                v = [z + d * w for z, w in zip(member, u)]
+                st = vec_str(v)
+                expect = {'kind': 'span-nonmember', 'dist': d, 'dependent': kind == 'dependent'}
+        elif kind == 'square':
+            v = rvec(rng, dim, True)
+            st = vec_str(v)
+        elif kind == 'zero':
+            st, expect = vec_str([0] * dim), {'kind': 'nonmember'}
+        elif kind == 'shape':
+            st, expect = rng.choice(wrong_shapes(rng, dim)), {'kind': 'wrongshape'}
+        out.append({'grader': 'Matrix', 'cmp': {'name': 'span'}, 'params': [vec_str(w) for w in ws], 'tolerance': tolerance,
+                    'student': st, 'expect': expect, 'exact': False, 'policy': pol, 'samples': rng.choice([1, 2])})
+    return out
+
+
+def gen_phase(rng, n):
+    out = []
+    kinds = ['member', 'scaled', 'member', 'twisted', 'perturbed', 'zero', 'shape', 'member', 'scaled']
+    for i in range(n):
+        kind = kinds[i % len(kinds)]
+        dim = rng.choice([2, 3, 4])
+        ints = rng.random() < 0.4
+        t = rvec(rng, dim, True, ints=ints)
+        pol = rng.choice(POLICIES)
+        tolerance = rtol(rng)
+        phi = rng.uniform(0, 2 * math.pi)
+        u = rng.choice([cmath.exp(1j * phi), 1j, -1, complex(0.6, 0.8), complex(-0.8, 0.6), 1])
+        expect = {'kind': 'phase'}
+        if kind == 'member':
+            st, expect = vec_str([u * z for z in t]), {'kind': 'member'}
+        elif kind == 'scaled':
+            st = vec_str([rng.choice([0.5, 0.9, 1.1, 2, 1.0001]) * u * z for z in t])
+        elif kind == 'twisted':
+            st = vec_str([cmath.exp(1j * rng.uniform(0, 2 * math.pi)) * z for z in t])
+        elif kind == 'perturbed':
+            w = rvec(rng, dim, True)
+            st = vec_str([u * z + rng.choice([1e-3, 0.05, 0.7]) * y for z, y in zip(t, w)])
+        elif kind == 'zero':
+            st, expect = vec_str([0] * dim), {'kind': 'nonmember'}
+        else:
+            st, expect = rng.choice(wrong_shapes(rng, dim)), {'kind': 'wrongshape'}
+        out.append({'grader': 'Matrix', 'cmp': {'name': 'phase'}, 'params': [vec_str(t)], 'tolerance': tolerance,
+                    'student': st, 'expect': expect, 'exact': False, 'policy': pol, 'samples': rng.choice([1, 2])})
+    return out
+
+
+def gen_entry(rng, n):
+    out = []
+    for i in range(n):
+        exact = rng.random() < 0.4
+        shape = rng.choice([(2,), (3,), (4,), (2, 2), (2, 3), (3, 3), (3, 2), (1, 3)])
+        rows, cols = (1, shape[0]) if len(shape) == 1 else shape
+        use_vars = rng.random() < 0.3 and not exact
+        tolerance = rng.choice([0.5, 0.25, '1%', 0]) if exact else rtol(rng)
+        pc = rng.choice([0, 0.3, 0.5, 1, 'proportional', 'proportional', 0.75, 0.0, 1.0])
+        ag = rng.choice([1, 1, 0.5])
+        N = rows * cols
+        mode = rng.choice(['all', 'none', 'some', 'some', 'some', 'shape'])
+        bad = set(range(N)) if mode == 'none' else set() if mode in ('all', 'shape') else set(rng.sample(range(N), rng.randint(1, N - 1)))
+        exp_entries, stu_entries = [], []
+        for j in range(N):
+            if use_vars and rng.random() < 0.5:
+                c = rng.choice([1, 2, 3])
+                e_txt, mag = '%d*x' % c, 5.0 * c
+            else:
+                z = rc(rng, rng.random() < 0.3, ints=exact)
+                if z == 0:
+                    z = complex(1, 0)
+                e_txt, mag = cnum(z), abs(z)
+            te = tol_value(tolerance, mag)
+            if j in bad:
+                d = (max(1.0, 2000 * te) * rng.uniform(1, 2)) if not exact else rng.choice([1, 2, 0.75])
+                if exact and d <= te:
+                    d = te + 1
+                s_txt = '%s+%s' % (e_txt, fnum(rng.choice([-1, 1]) * d))
+            elif exact and te > 0 and rng.random() < 0.3:
+                s_txt = '%s+%s' % (e_txt, fnum(rng.choice([-1, 1]) * te))      # exactly at the tolerance: still a match
+            elif not exact and te > 0 and rng.random() < 0.3:
+                s_txt = '%s+%s' % (e_txt, fnum(rng.choice([-1, 1]) * 0.3 * te * (0.2 if use_vars else 1)))
+            else:
+                s_txt = e_txt
+            exp_entries.append(e_txt)
+            stu_entries.append(s_txt)
+
+        def arr(entries):
+            if len(shape) == 1:
+                return '[' + ', '.join(entries) + ']'
+            return '[' + ', '.join('[' + ', '.join(entries[r * cols:(r + 1) * cols]) + ']' for r in range(rows)) + ']'
+        expect = {'kind': 'entry', 'bad': len(bad), 'n': N, 'pc': pc}
+        st = arr(stu_entries)
+        pol = rng.choice(POLICIES)
+        if mode == 'shape':
+            st = rng.choice(wrong_shapes(rng, cols, None if len(shape) == 1 else shape))
+            expect = {'kind': 'wrongshape'}
+        spec = {'grader': 'Matrix', 'cmp': {'name': 'entry', 'cfg': {'entry_partial_credit': pc}}, 'params': [arr(exp_entries)],
+                'tolerance': tolerance, 'student': st, 'expect': expect, 'exact': exact, 'policy': pol, 'ag': ag,
+                'samples': rng.choice([1, 2, 3])}
+        if use_vars:
+            spec['variables'] = ['x']
+            spec['sample_from'] = {'x': ['real', 1, 5]}
+        out.append(spec)
+    return out
+
+
+LINEAR_CFGS = [{}, {'offset': 0.7, 'linear': 0.3}, {'equals': None, 'proportional': 0.5}, {'equals': None, 'offset': 0.8, 'proportional': None},
+               {'equals': 1.0, 'proportional': None, 'linear': 0.4}, {'equals': None, 'proportional': None, 'linear': 1.0},
+               {'equals': 0.9, 'proportional': 0.9, 'offset': 0.2, 'linear': 0.1}, {'proportional': 0.5, 'linear': 0.25}]
+
+
+def gen_linear(rng, n):
+    out = []
+    for i in range(n):
+        exact = rng.random() < 0.35
+        vector = rng.random() < 0.4
+        cfg = rng.choice(LINEAR_CFGS)
+        tolerance = rtol(rng) if not exact else rng.choice(['1%', '0.01%', 0.125])
+        samples = rng.choice([3, 4, 5])
+        cplx = rng.random() < 0.3 and not exact
+        a = rng.choice([1, 1, 2, -3, 0.5, complex(1, 1) if cplx else 4, 0])
+        b = rng.choice([0, 0, 1, -2, 0.25, complex(0, 1) if cplx else 3])
+        form = rng.choice(['lin', 'lin', 'lin', 'lin', 'square', 'zero', 'const', 'shape' if vector else 'lin', 'iso' if vector else 'lin'])
+        if vector:
+            E = rng.choice(['[x, y]', '[x, x^2, 1]', '[x+y, x-y]', '[0, 0]' if form == 'zero' and rng.random() < 0.5 else '[x, 2*y]'])
+            dim = E.count(',') + 1
+            ones_v = '[' + ', '.join(['1'] * dim) + ']'
+            S = '%s*%s+%s*%s' % (cnum(a), E, cnum(b), ones_v)
+            if form == 'square':
+                S = '[' + ', '.join('(%s)^2' % e.strip() for e in E[1:-1].split(',')) + ']'
+            elif form == 'zero' and E != '[0, 0]':
+                S = '[' + ', '.join(['0'] * dim) + ']'
+            elif form == 'const':
+                S = vec_str([rc(rng, False, ints=True) for _ in range(dim)])
+            elif form == 'shape':
+                S = rng.choice(wrong_shapes(rng, dim))
+            elif form == 'iso':
+                offs = rng.choice([[1, 1j], [1j, 1], [2, -2j]]) + [0] * (dim - 2)
+                S = '%s+%s' % (E, vec_str(offs))
+            variables = ['x', 'y']
+            grader = 'Matrix'
+        else:
+            E = rng.choice(['x', 'x^2+1', '3', 'x*y', '0' if form == 'zero' and rng.random() < 0.5 else '2*x'])
+            S = '%s*(%s)+%s' % (cnum(a), E, cnum(b))
+            if form == 'square':
+                S = '(%s)^2+x^3' % E
+            elif form == 'zero' and E != '0':
+                S = '0'
+            elif form == 'const':
+                S = fnum(rng.choice([3, 6, 1.5, -2]))
+            variables = ['x', 'y']
+            grader = rng.choice(['Formula', 'Matrix'])
+        sf = {v: (['int', 1, 30] if exact else ['complex', 1, 3] if cplx and rng.random() < 0.5 else ['real', 1, 5]) for v in variables}
+        spec = {'grader': grader, 'cmp': {'name': 'linear', 'cfg': cfg}, 'params': [E], 'tolerance': tolerance, 'student': S,
+                'expect': {'kind': 'wrongshape'} if form == 'shape' else {'kind': 'linear'}, 'exact': False,
+                'variables': variables, 'sample_from': sf, 'samples': samples, 'ag': rng.choice([1, 1, 0.5]),
+                'policy': rng.choice(POLICIES)}
+        out.append(spec)
+    return out
+
+
+def gen_equality(rng, n):
+    out = []
+    for i in range(n):
+        shape = rng.choice([(), (2,), (3,), (2, 2), (2, 3)])
+        exact = rng.random() < 0.4
+        tolerance = rng.choice([0.5, 0.25, '1%', 0]) if exact else rtol(rng)
+        if shape == ():
+            e = rc(rng, rng.random() < 0.3, ints=exact)
+            E = cnum(e)
+            flatE = [e]
+        elif len(shape) == 1:
+            flatE = rvec(rng, shape[0], rng.random() < 0.3, ints=exact)
+            E = vec_str(flatE)
+        else:
+            rows = [rvec(rng, shape[1], rng.random() < 0.3, ints=exact) for _ in range(shape[0])]
+            flatE = [z for r in rows for z in r]
+            E = mat_str(rows)
+        nrm = math.sqrt(sum(abs(z) ** 2 for z in flatE))
+        tol = tol_value(tolerance, nrm)
+        mode = rng.choice(['same', 'near', 'far', 'shape', 'at'])
+        j = rng.randrange(len(flatE))
+        d = {'same': 0, 'near': 0.4 * tol, 'far': max(2000 * tol, 0.5), 'at': tol if exact else 0.9 * tol, 'shape': 0}[mode]
+        flatS = list(flatE)
+        flatS[j] = flatS[j] + d
+
+        def arr(fl):
+            if shape == ():
+                return cnum(fl[0])
+            if len(shape) == 1:
+                return vec_str(fl)
+            return mat_str([fl[r * shape[1]:(r + 1) * shape[1]] for r in range(shape[0])])
+        st = arr(flatS)
+        expect = {'kind': 'member'} if mode in ('same', 'near', 'at') else {'kind': 'nonmember'}
+        grader = 'Matrix' if shape != () else rng.choice(['Matrix', 'Formula', 'Numerical'])
+        if mode == 'shape':
+            if grader != 'Matrix':
+                continue
+            if shape == ():
+                st = vec_str([1, 2])
+            else:
+                st = rng.choice(wrong_shapes(rng, shape[-1], None if len(shape) == 1 else shape))
+            expect = {'kind': 'wrongshape'}
+        out.append({'grader': grader, 'cmp': {'name': 'equality'}, 'params': [E], 'tolerance': tolerance, 'student': st,
+                    'expect': expect, 'exact': exact and mode != 'near', 'policy': rng.choice(POLICIES),
+                    'samples': 1, 'ag': rng.choice([1, 1, 0.5])})
+    return out
+
+
+def corpus():
+    """fixed cases that run first on every run: the hand-reproduced defects of DESIGN section 5 and their neighbours"""
+    dflt = {'suppress': False, 'is_raised': True, 'msg_detail': 'type'}
+    C = [
+        # congruence wrap-around
+        {'grader': 'Numerical', 'cmp': {'name': 'congruence'}, 'params': ['0', '2*pi'], 'tolerance': 1e-6, 'student': '(-1e-09)',
+         'expect': {'kind': 'congruence'}},
+        {'grader': 'Numerical', 'cmp': {'name': 'congruence'}, 'params': ['0', '2*pi'], 'tolerance': 1e-6, 'student': '1e-09',
+         'expect': {'kind': 'congruence'}},
+        {'grader': 'Numerical', 'cmp': {'name': 'congruence'}, 'params': ['0', '1'], 'tolerance': 0.125, 'student': '(-0.0625)',
+         'expect': {'kind': 'congruence'}, 'exact': True},
+        {'grader': 'Numerical', 'cmp': {'name': 'congruence'}, 'params': ['0.5', '1'], 'tolerance': 0.125, 'student': '3.625',
+         'expect': {'kind': 'congruence'}, 'exact': True},
+        # dependent spanning vectors
+        {'grader': 'Matrix', 'cmp': {'name': 'span'}, 'params': ['[1, 1, 0]', '[2, 2, 0]'], 'tolerance': '0.01%', 'student': '[0, 0, 1]',
+         'expect': {'kind': 'span-nonmember', 'dist': 1.0, 'dependent': True}, 'policy': dflt},
+        {'grader': 'Matrix', 'cmp': {'name': 'span'}, 'params': ['[1, 1, 0]', '[0, 1, 2]'], 'tolerance': '0.01%',
+         'student': '[2, 2+3*i, 6*i]', 'expect': {'kind': 'member'}, 'policy': dflt},
+        {'grader': 'Matrix', 'cmp': {'name': 'span'}, 'params': ['[1, 1, 0]', '[0, 1, 2]'], 'tolerance': '0.01%',
+         'student': '[2, 2+3*i, 6]', 'expect': {'kind': 'span-nonmember', 'dist': 1.0, 'dependent': False}, 'policy': dflt},
+        # LinearComparer: no zero-compatible mode and a zero student
+        {'grader': 'Formula', 'cmp': {'name': 'linear', 'cfg': {'equals': None, 'proportional': 0.5}}, 'params': ['x'],
+         'tolerance': '0.01%', 'student': '0', 'expect': {'kind': 'linear'}, 'variables': ['x'], 'samples': 4},
+        {'grader': 'Formula', 'cmp': {'name': 'linear', 'cfg': {'equals': None, 'proportional': 0.5}}, 'params': ['x'],
+         'tolerance': '0.01%', 'student': '2*x', 'expect': {'kind': 'linear'}, 'variables': ['x'], 'samples': 4},
+        # LinearComparer: complex offsets whose squares cancel
+        {'grader': 'Matrix', 'cmp': {'name': 'linear', 'cfg': {}}, 'params': ['[x, y]'], 'tolerance': '0.01%', 'student': '[x+1, y+i]',
+         'expect': {'kind': 'linear'}, 'variables': ['x', 'y'], 'samples': 3, 'policy': dflt},
+        {'grader': 'Matrix', 'cmp': {'name': 'linear', 'cfg': {}}, 'params': ['[x, y]'], 'tolerance': '0.01%', 'student': '[x+1, y+1]',
+         'expect': {'kind': 'linear'}, 'variables': ['x', 'y'], 'samples': 3, 'policy': dflt},
+        # between: complex-typed real value inside the bounds
+        {'grader': 'Numerical', 'cmp': {'name': 'between'}, 'params': ['1', '3'], 'tolerance': '0.01%', 'student': '2+0*i',
+         'expect': {'kind': 'member'}, 'exact': True},
+        {'grader': 'Numerical', 'cmp': {'name': 'between'}, 'params': ['1', '3'], 'tolerance': '0.01%', 'student': '3',
+         'expect': {'kind': 'member'}, 'exact': True},
+        {'grader': 'Numerical', 'cmp': {'name': 'between'}, 'params': ['1', '3'], 'tolerance': '0.01%', 'student': '3.0000000001',
+         'expect': {'kind': 'nonmember'}, 'exact': True},
+        # phase / eigenvector documented examples
+        {'grader': 'Matrix', 'cmp': {'name': 'phase'}, 'params': ['[1, i, 0]'], 'tolerance': '0.01%', 'student': '(3+4*i)/5*[1, i, 0]',
+         'expect': {'kind': 'member'}, 'policy': dflt},
+        {'grader': 'Matrix', 'cmp': {'name': 'phase'}, 'params': ['[1, i, 0]'], 'tolerance': '0.01%', 'student': '[2, 2*i, 0]',
+         'expect': {'kind': 'phase'}, 'policy': dflt},
+        {'grader': 'Matrix', 'cmp': {'name': 'eigen'}, 'params': ['[[2, 1], [1, 2]]', '3'], 'tolerance': '0.01%', 'student': '(1+i)*[1, 1]',
+         'expect': {'kind': 'member'}, 'policy': dflt},
+        {'grader': 'Matrix', 'cmp': {'name': 'eigen'}, 'params': ['[[2, 1], [1, 2]]', '3'], 'tolerance': '0.01%', 'student': '[1, -1]',
+         'expect': {'kind': 'eigen'}, 'policy': dflt},
+    ]
+    for c in C:
+        c.setdefault('samples', 1)
+        c.setdefault('exact', False)
+    return C
+
+
+def shape_grid():
+    """every shape-validating comparer x every policy x a few wrong shapes"""
+    out = []
+    setups = [
+        ({'name': 'equality'}, ['[[1, 2], [3, 4]]'], ['[1, 2]', '5', '[[1, 2, 3], [3, 4, 5]]', '[[1, 2], [3, 4], [5, 6]]']),
+        ({'name': 'equality'}, ['[1, 2, 3]'], ['[1, 2]', '5', '[[1, 2, 3]]']),
+        ({'name': 'equality'}, ['7'], ['[7]', '[[7]]']),
+        ({'name': 'entry', 'cfg': {'entry_partial_credit': 'proportional'}}, ['[[1, 2], [3, 4]]'], ['[1, 2]', '5', '[[1, 2, 3], [3, 4, 5]]']),
+        ({'name': 'eigen'}, ['[[2, 1], [1, 2]]', '3'], ['[1, 1, 1]', '3', '[[1, 1], [1, 1]]', '[1]']),
+        ({'name': 'span'}, ['[1, 1, 0]', '[0, 1, 2]'], ['[1, 1]', '5', '[[1, 1, 0]]']),
+        ({'name': 'phase'}, ['[1, i, 0]'], ['[1, i]', '5', '[[1, i, 0]]']),
+    ]
+    for cmp, params, students in setups:
+        for pol in POLICIES:
+            for st in students:
+                out.append({'grader': 'Matrix', 'cmp': cmp, 'params': params, 'tolerance': '0.01%', 'student': st,
+                            'expect': {'kind': 'wrongshape'}, 'exact': True, 'policy': pol, 'samples': 1})
+    for pol in POLICIES:
+        for st in ['[x, y, 1]', 'x', '[[x, y]]']:
+            out.append({'grader': 'Matrix', 'cmp': {'name': 'linear', 'cfg': {}}, 'params': ['[x, y]'], 'tolerance': '0.01%',
+                        'student': st, 'expect': {'kind': 'wrongshape'}, 'exact': False, 'policy': pol, 'samples': 3,
+                        'variables': ['x', 'y']})
+    return out
+
+
+# ------------------------------------------------------------------------------------------------
+# the property oracle (independent of the model): returns None or a dict(what=..., finding=...)
+# ------------------------------------------------------------------------------------------------
+def accepted(run, ag):
+    return run.status == 'ret' and run.out.get('ok') is not False and abs(run.out.get('grade_decimal', 0) - ag) < 1e-9 and ag > 0
+
+
+def rejected(run):
+    return (run.status == 'ret' and run.out.get('ok') is False and run.out.get('grade_decimal') == 0) or run.status == 'exc'
+
+
+def is_generic(run):
+    return run.status == 'exc' and str(run.out).startswith('Invalid Input: Could not check input')
+
+
+def describe(run):
+    if run.status == 'ret':
+        return 'returned ok=%r grade_decimal=%r msg=%r' % (run.out.get('ok'), run.out.get('grade_decimal'), run.out.get('msg', '')[:60])
+    return 'raised %s: %s' % (type(run.out).__name__, str(run.out)[:100])
+
+
+def fr(x):
+    return Fraction(float(x))
+
+
+def oracle(spec, run):
+    import numpy as np
+    from mitxgraders.exceptions import InputTypeError, MITxError
+    exp = spec.get('expect') or {}
+    kind = exp.get('kind')
+    ag = spec.get('ag', 1)
+    name = spec['cmp']['name']
+    tolerance = spec['tolerance']
+    if kind is None:
+        return None
+    if run.status == 'timeout':
+        return {'what': 'grader call timed out'}
+    if kind == 'member':
+        if accepted(run, ag):
+            return None
+        finding = None
+        if name == 'between' and run.calls and isinstance(run.calls[-1]['student'], complex) and \
+                run.calls[-1]['student'].imag == 0 and is_generic(run):
+            finding = 'between_comparer-complex-typed-real'
+        return {'what': 'member of the accepted class (by construction) is not accepted: ' + describe(run), 'finding': finding}
+    if kind == 'nonmember':
+        return None if rejected(run) else {'what': 'non-member is not rejected: ' + describe(run)}
+    if kind == 'ungraded':
+        return None if (run.status == 'exc' and isinstance(run.out, MITxError)) else \
+            {'what': 'input of the wrong shape was graded instead of being reported: ' + describe(run)}
+    if kind == 'wrongshape':
+        pol = spec.get('policy') or {}
+        if run.calls and 'ret' in run.calls[-1]:
+            return {'what': 'comparer graded an input of the wrong shape (returned %r)' % (run.calls[-1]['ret'],)}
+        if pol.get('suppress'):
+            good = run.status == 'ret' and run.out == {'ok': False, 'msg': '', 'grade_decimal': 0}
+        elif pol.get('is_raised', True):
+            good = run.status == 'exc' and isinstance(run.out, InputTypeError) and \
+                (str(run.out) == '' if pol.get('msg_detail', 'type') is None else str(run.out).startswith('Expected answer to be a'))
+        else:
+            good = run.status == 'ret' and run.out.get('ok') is False and run.out.get('grade_decimal') == 0 and \
+                (run.out.get('msg') == '' if pol.get('msg_detail', 'type') is None else run.out.get('msg', '').startswith('Expected answer to be a'))
+        return None if good else {'what': 'wrong-shape submission not handled according to the mismatch policy %r: %s' % (pol, describe(run))}
+    if not run.calls:
+        return None
+    call = run.calls[-1]
+    if kind == 'congruence':
+        t, m = [fr(p) for p in call['params']]
+        x = call['student']
+        if isinstance(x, complex) or m == 0:
+            return None
+        x = fr(x)
+        am = abs(m)
+        r = (x - t) - am * math.floor((x - t) / am)
+        dist = min(r, am - r)
+        er = t - m * math.floor(t / m)
+        sr = x - m * math.floor(x / m)
+        if isinstance(tolerance, str):
+            p = Fraction(float(tolerance.strip()[:-1]) * 0.01)
+            lo_t, hi_t = p * min(abs(er), abs(t)), p * max(abs(er), abs(t), am)
+        else:
+            lo_t = hi_t = Fraction(tolerance)
+        guard = Fraction(0) if spec.get('exact') else max(lo_t, hi_t) / 10 ** 6 + am / 10 ** 12
+        if dist <= lo_t - guard and (spec.get('exact') or dist <= lo_t * Fraction(999, 1000)):
+            if accepted(run, ag):
+                return None
+            finding = 'congruence_comparer-wraparound' if (rejected(run) and run.status == 'ret' and abs(er - sr) > am / 2) else None
+            return {'what': 'input congruent to the target within tolerance (distance %.3g, tolerance %.3g) is not accepted: %s'
+                    % (float(dist), float(lo_t), describe(run)), 'finding': finding}
+        if dist >= hi_t + guard and (spec.get('exact') and dist > hi_t or dist >= hi_t * 10):
+            return None if rejected(run) else {'what': 'input at distance %.3g from the class (tolerance %.3g) is not rejected: %s'
+                                               % (float(dist), float(hi_t), describe(run))}
+        return None
+    if kind == 'eigen':
+        M, lam = np.array(call['params'][0], dtype=complex), complex(call['params'][1])
+        v = np.array(call['student'], dtype=complex)
+        if v.shape != (M.shape[0],):
+            return None
+        Mv = M.dot(v)
+        r = float(np.linalg.norm(Mv - lam * v))
+        tol = tol_value(tolerance, float(np.linalg.norm(Mv)))
+        vn = float(np.linalg.norm(v))
+        if r >= 1000 * tol and r > 1e-9 * max(1.0, vn):
+            return None if rejected(run) else {'what': '|Mv - lambda v| = %.3g is %.0f x the tolerance %.3g but the input is not rejected: %s'
+                                               % (r, r / tol if tol else float('inf'), tol, describe(run))}
+        return None
+    if kind == 'span-nonmember':
+        v = np.array(call['student'], dtype=complex)
+        tol = tol_value(tolerance, float(np.linalg.norm(v)))
+        if exp['dist'] >= 1000 * tol:
+            if rejected(run):
+                return None
+            finding = None
+            if exp.get('dependent') and run.lstsq and run.lstsq[-1][2].size == 0 and run.lstsq[-1][3] < run.lstsq[-1][0].shape[1] \
+                    and accepted(run, ag):
+                finding = 'vector_span_comparer-dependent-vectors'
+            return {'what': 'vector at distance %.3g from the span (tolerance %.3g) is not rejected: %s' % (exp['dist'], tol, describe(run)),
+                    'finding': finding}
+        return None
+    if kind == 'phase':
+        t = np.array(call['params'][0], dtype=complex)
+        v = np.array(call['student'], dtype=complex)
+        if v.shape != t.shape:
+            return None
+        d2 = float(np.vdot(v, v).real + np.vdot(t, t).real - 2 * abs(np.vdot(t, v)))
+        dist = math.sqrt(max(d2, 0.0))
+        nt, nv = float(np.linalg.norm(t)), float(np.linalg.norm(v))
+        tol_max = tol_value(tolerance, max(nt, nv))
+        if dist >= 1000 * tol_max and dist > 1e-6 * max(nt, nv):
+            return None if rejected(run) else {'what': 'vector at distance %.3g from the phase orbit of the target (tolerance %.3g) is not rejected: %s'
+                                               % (dist, tol_max, describe(run))}
+        return None
+    if kind == 'entry':
+        bad, n, pc = exp['bad'], exp['n'], exp['pc']
+        if bad == 0:
+            want = ag
+        elif bad == n:
+            want = 0
+        elif pc == 'proportional':
+            want = ag * (n - bad) / n
+        else:
+            want = ag * pc
+        if run.status != 'ret' or abs(run.out.get('grade_decimal', -1) - want) > 1e-9 or (want == 0) != (run.out.get('ok') is False):
+            return {'what': '%d of %d entries wrong, entry_partial_credit=%r, answer grade %r: expected grade %r, %s'
+                    % (bad, n, pc, ag, want, describe(run))}
+        return None
+    if kind == 'linear':
+        return linear_oracle(spec, run)
+    return None
+
+
+def linear_oracle(spec, run):
+    import numpy as np
+    call = run.calls[-1]
+    cfg = {'equals': 1.0, 'proportional': 0.5, 'offset': None, 'linear': None}
+    cfg.update(spec['cmp'].get('cfg', {}))
+    ag = spec.get('ag', 1)
+    try:
+        Es = [np.array(p[0], dtype=complex).reshape(-1) for p in call['params']]
+        Ss = [np.array(s, dtype=complex).reshape(-1) for s in call['student']]
+    except Exception:
+        return None
+    if len(Ss) < 3 or any(e.shape != s.shape for e, s in zip(Es, Ss)):
+        return None
+    E, S = np.concatenate(Es), np.concatenate(Ss)
+    tolerance = spec['tolerance']
+    tol = tol_value(tolerance, float(np.linalg.norm(S)))
+    s_zero = bool(np.all(S == 0))
+    e_zero = bool(np.all(E == 0))
+    if not (s_zero or e_zero):
+        # decisively nonzero: some student sample far above its own zero threshold
+        far = any(np.linalg.norm(s) >= 1000 * tol_value(tolerance, float(np.linalg.norm(e))) and np.linalg.norm(s) > 0 for s, e in zip(Ss, Es))
+        if not far:
+            return None
+    zero = s_zero or e_zero
+    n = len(S)
+    errs = {'equals': float(np.linalg.norm(S - E)),
+            'offset': float(np.linalg.norm(S + np.mean(E - S) - E))}
+    ss = float(np.vdot(S, S).real)
+    if ss > 0:
+        errs['proportional'] = float(np.linalg.norm(E - (np.vdot(S, E) / ss) * S))
+    Sc, Ec = S - np.mean(S), E - np.mean(E)
+    scc = float(np.vdot(Sc, Sc).real)
+    if scc <= 1e-20 * max(ss, 1e-300):
+        errs['linear'] = errs['offset']
+    elif scc < 1e-6 * ss:
+        return None                  # nearly constant student samples: lstsq's rank decision is a numerical matter
+    else:
+        errs['linear'] = float(np.linalg.norm(Ec - (np.vdot(Sc, Ec) / scc) * Sc))
+    allowed = [m for m in ('equals', 'proportional', 'offset', 'linear') if cfg[m] is not None and (not zero or m in ('equals', 'offset'))]
+    scale = max(float(np.linalg.norm(E)), float(np.linalg.norm(S)), 1e-300)
+    holds = {}
+    for m in allowed:
+        if m not in errs:
+            return None
+        if errs[m] <= tol / 1000 and (tol > 0 or errs[m] == 0):
+            holds[m] = True
+        elif errs[m] >= 1000 * tol and errs[m] > 1e-9 * scale:
+            holds[m] = False
+        else:
+            return None
+    want = max([cfg[m] for m in allowed if holds[m]] + [0]) * ag
+    if run.status == 'ret' and abs(run.out.get('grade_decimal', -1) - want) <= 1e-9:
+        return None
+    finding = None
+    if zero and not allowed and is_generic(run):
+        finding = 'LinearComparer-empty-valid-modes'
+    elif run.status == 'ret' and run.out.get('grade_decimal', 0) > want and np.any(np.imag(S - E) != 0):
+        # the implementation's own error formulas sqrt(sum(square(d))) on the recorded samples
+        d_eq, d_off = S - E, S + np.mean(E - S) - E
+        fake = [abs(np.sqrt(np.sum(np.square(d)))) for d in (d_eq, d_off)]
+        true = [float(np.linalg.norm(d)) for d in (d_eq, d_off)]
+        if any(f <= tol < t / 1000 for f, t in zip(fake, true)):
+            finding = 'LinearComparer-complex-squares'
+    return {'what': 'relations that hold among configured modes %r (zero side: %r): %r with fit errors %r, tolerance %.3g; expected grade %r, %s'
+            % (allowed, zero, sorted(m for m in holds if holds[m]), {k: float('%.3g' % v) for k, v in errs.items()}, tol, want, describe(run)),
+            'finding': finding}
+
+
+# ------------------------------------------------------------------------------------------------
+# driver API
+# ------------------------------------------------------------------------------------------------
+def spec_key(spec):
+    return '%s/%s/%s/tol=%s/%s' % (spec['grader'], json.dumps(spec['cmp'], sort_keys=True), '|'.join(spec['params']),
+                                   spec['tolerance'], spec['student'])
+
+
+def all_specs(ctx):
+    rng = random.Random(7919 * ctx['seed'] + 16)
+    quick = ctx['tier'] == 'quick'
+    mult = 1 if quick else 8
+    specs = corpus() + shape_grid()
+    specs += gen_between(rng, 110 * mult)
+    specs += gen_congruence(rng, 200 * mult)
+    specs += gen_eigen(rng, 160 * mult)
+    specs += gen_span(rng, 200 * mult)
+    specs += gen_phase(rng, 160 * mult)
+    specs += gen_entry(rng, 180 * mult)
+    specs += gen_linear(rng, 220 * mult)
+    specs += gen_equality(rng, 100 * mult)
+    for i, s in enumerate(specs):
+        s.setdefault('seed', (ctx['seed'] * 100003 + i) % (2 ** 31))
+    return specs
+
+
+def run(ctx):
+    res = core.Result()
+    res.rule = ('one case = one call of a real Formula/Numerical/MatrixGrader configured with the comparer; distinct by (grader, comparer '
+                'configuration, comparer_params, tolerance, student input); trivial cases (comparer never reached because the parser '
+                'refused the input) are not counted')
+    specs = all_specs(ctx)
+    terms, metas = [], []
+    dist = {'by_comparer': {}, 'by_expectation': {}, 'tolerance_kinds': {'absolute': 0, 'percentage': 0}, 'exact_stream': 0,
+            'not_expressible': 0, 'lstsq_calls': 0, 'lstsq_rank_deficient_reported': 0, 'outcomes': {}}
+    plain, found = [], []
+    for spec in specs:
+        r = execute(spec)
+        res.oracle_evals += 1
+        name = spec['cmp']['name']
+        dist['by_comparer'][name] = dist['by_comparer'].get(name, 0) + 1
+        ek = str((spec.get('expect') or {}).get('kind'))
+        dist['by_expectation'][ek] = dist['by_expectation'].get(ek, 0) + 1
+        dist['tolerance_kinds']['percentage' if isinstance(spec['tolerance'], str) else 'absolute'] += 1
+        dist['exact_stream'] += 1 if spec.get('exact') else 0
+        dist['lstsq_calls'] += len(r.lstsq)
+        dist['lstsq_rank_deficient_reported'] += sum(1 for l in r.lstsq if l[2].size == 0)
+        oc = 'ok=%r' % (r.out.get('ok'),) if r.status == 'ret' else type(r.out).__name__
+        dist['outcomes'][oc] = dist['outcomes'].get(oc, 0) + 1
+        try:
+            verdict = oracle(spec, r)
+        except Exception as e:                                # the oracle itself must never break the run silently
+            verdict = None
+            res.notes.append('oracle error on %s: %r' % (spec_key(spec), e))
+        if verdict:
+            w = {'key': ('finding:' + verdict['finding']) if verdict.get('finding') else spec_key(spec), 'kind': name,
+                 'what': verdict['what'], 'finding': verdict.get('finding'),
+                 'spec': {k: v for k, v in spec.items()}, 'observed': describe(r)}
+            (found if verdict.get('finding') else plain).append(w)
+        if r.calls:
+            res.nontrivial.add(spec_key(spec))
+        try:
+            terms.append(case_term(spec, r))
+            metas.append(spec)
+        except Unrepresentable as e:
+            dist['not_expressible'] += 1
+        if len(res.samples) < 6 and r.calls and name not in [s.get('comparer') for s in res.samples]:
+            res.samples.append({'comparer': name, 'grader': spec['grader'], 'comparer_params': spec['params'],
+                                'tolerance': spec['tolerance'], 'student_input': spec['student'], 'implementation': describe(r),
+                                'oracle_expectation': spec.get('expect')})
+    res.witnesses = plain + found          # unclassified violations first: they must never be crowded out by known ones
+    res.distribution = dist
+    shard = max(40, (len(terms) + 15) // 16)
+    n, failing, boundary, errors = eval_cases('c16', terms, shard)
+    res.programs = n
+    res.boundary = len(boundary)
+    res.corr_errors += errors
+    for i in failing:
+        sp = metas[i]
+        res.disagreements.append({'kind': sp['cmp']['name'], 'spec': {k: v for k, v in sp.items()},
+                                  'what': 'model and implementation differ (or a recorded lstsq residual contradicts its specification)'})
+    dist['boundary_guarded'] = len(boundary)
+    return res
+
+
+def replay(w):
+    spec = w['spec']
+    r = execute(spec)
+    verdict = oracle(spec, r)
+    text = 'C16 replay: %s %s params=%r tolerance=%r student=%r -> %s' % (
+        spec['grader'], json.dumps(spec['cmp']), spec['params'], spec['tolerance'], spec['student'], describe(r))
+    if verdict:
+        return True, text + '\n  violates the property: ' + verdict['what']
+    return False, text + '\n  the oracle has no complaint on the current tree'
+
+
+def classify_known(w, known_entries):
+    f = w.get('finding')
+    if not f or f not in FINDINGS:
+        return None
+    for e in known_entries:
+        if e.get('id') == f:
+            return e['id']
+    return None
+
+
+LEVEL_TEXT = ('Theorems over exact (Gaussian-rational) arithmetic for all vector lengths, moduli and tolerances: between (iff for float-typed '
+              'values, soundness), congruence (soundness, shift invariance, exact members, exact characterisation "congruent without crossing '
+              'the wrap"), eigenvector (iff, exact class at zero tolerance, members under any rescaling, scale invariance for percentage '
+              'tolerances), least squares (the documented residual is the minimum distance to the complex span and is attained by explicit '
+              'coefficients), span (iff for independent vectors fewer than the dimension, members, rank-deficient behaviour), phase (exact class '
+              'at zero tolerance, members, soundness), MatrixEntryComparer (entry diagram, three-way credit rule, full/zero iff), LinearComparer '
+              '(best configured mode among those that hold, the meaning of the four relations, zero rule), shape-mismatch policy for every '
+              'shape-validating comparer. Five sub-statements are false of the faithful model and carry _refuted theorems with witnesses.')
+LEVEL_NOTE = ('Partial where stated: span iff lacks the case of as many independent vectors as the dimension; phase "within tolerance" is '
+              'soundness + completeness for exact members + exactness at zero tolerance; equals/offset relations are characterised for real '
+              'samples (complex samples are a refuted defect). Least-squares numerics, IEEE rounding and numpy are oracles/modelled; trusted: '
+              'Coq kernel, harness/props/c16.py, translate/comparers.py; no axioms.')
+TECHNIQUE = ('Coq proof (Q / Gaussian rationals, Gram-Schmidt minimality by orthogonality, lra/nra/field) + vm_compute differential '
+             'correspondence on recorded comparer and lstsq I/O + source-to-Gallina translator for the declarative fragments')
+DESIGN_REF = 'DESIGN.md section 3, C16; section 5 rows C16'
